@@ -184,6 +184,14 @@ def shrink_script(hbin, lines, still_fails, budget=160):
     return head + body
 
 
+# findings of known_findings.json that an oracle recognises by input class: the oracle message starts with "[Fnn]"
+KNOWN_CLASS_TAGS = ["F34"]
+
+
+def is_known_class(msg, known):
+    return any(msg.startswith("[%s]" % fid) and fid in known for fid in KNOWN_CLASS_TAGS)
+
+
 def classify(impl, model):
     """which properties a differing observation line speaks about"""
     it, mt = set(impl.split()), set(model.split())
@@ -528,6 +536,14 @@ def run(prop, tier):
 
     mine_or = [o for o in res["oracle"] if o["prop"] == prop]
     mine_mm = [m for m in res["mismatches"] if prop in m["props"]]
+    # listed findings are recognised by their input class (the oracle tags the class); anything else still alarms
+    known = {f["id"]: f for f in vlib.known_findings(prop)}
+    known_hits = {}
+    for fid in KNOWN_CLASS_TAGS:
+        if fid in known:
+            tag = "[%s]" % fid
+            known_hits[fid] = [o for o in mine_or if o["msg"].startswith(tag)]
+            mine_or = [o for o in mine_or if not o["msg"].startswith(tag)]
     if res["aborts"]:
         a = res["aborts"][0]
         hb = res.get("bins", {}).get(str(variant_of_case(a["case"])))
@@ -541,10 +557,10 @@ def run(prop, tier):
         hb = res.get("bins", {}).get(str(variant_of_case(o["case"])))
         sc = res.get("scripts", {}).get(o["case"])
         if hb and sc and tier_shrinks:
-            small = shrink_script(hb, sc, lambda rc, out: rc == 0 and any(p == prop for p, _ in bg.oracles(out.split("\n"))))
+            small = shrink_script(hb, sc, lambda rc, out: rc == 0 and any(p == prop and not is_known_class(m, known) for p, m in bg.oracles(out.split("\n"))))
             if len(small) < len(sc):
                 _, _, _, out_small = run_script(hb, "shrunk_%d" % os.getpid(), small, vlib.CACHE)
-                msgs = [m for p, m in bg.oracles(out_small.split("\n")) if p == prop]
+                msgs = [m for p, m in bg.oracles(out_small.split("\n")) if p == prop and not is_known_class(m, known)]
                 if msgs:
                     res.setdefault("scripts", {})[o["case"]] = small
                     res.setdefault("outputs", {})[o["case"]] = out_small
@@ -556,6 +572,18 @@ def run(prop, tier):
         ck.violation("correspondence", replay_text(m["case"], "correspondence stream `backend` disagrees: %s impl=[%s] model=[%s]" % (m["op"], m["impl"], m["model"])),
                      "model and implementation disagree (%d lines relevant to %s), no property oracle fired: %s impl=[%s] model=[%s]" % (
                          len(mine_mm), prop, m["op"], m["impl"][:120], m["model"][:120]), no_input=True)
+    for fid, hits in sorted(known_hits.items()):
+        wit = [o for o in hits if o["case"].startswith("corpus_%s_%s" % (prop, fid.lower()))]
+        if wit:
+            ck.known("%s reproduces in %d case(s) of its input class (%d corpus witness(es)), e.g. case %s: %s | %s; replay=%s" % (
+                fid, len(hits), len(wit), wit[0]["case"], wit[0]["msg"][len(fid) + 3:][:400],
+                re.sub(r"^KNOWN-FINDING: property=\S+ %s " % fid, "", known[fid].get("line", ""))[:300], known[fid].get("replay", "")))
+        elif hits:
+            ck.known("%s reproduces in %d generated case(s) of its input class (its corpus witness no longer does), e.g. case %s: %s" % (
+                fid, len(hits), hits[0]["case"], hits[0]["msg"][len(fid) + 3:][:400]))
+        else:
+            ck.log("listed finding %s does not reproduce any more (corpus witness silent)" % fid)
+        ck.cov["known_%s_hits" % fid] = len(hits)
     if ps["broken"] and not ck.violations:
         ck.violation("proof_broken", "theorems/obligations that no longer check:\n" + "\n".join(ps["broken"]) + "\n",
                      "proof side broken, no failing input found: " + ps["broken"][0][:300], no_input=True)
